@@ -75,6 +75,7 @@ pub struct Cx {
     nontrivial: bool,
     classes: Vec<u64>,
     evals: u64,
+    max_ratio: f64,
     sampling: bool,
     sample: Option<Value>,
     pub tier_thorough: bool,
@@ -90,6 +91,7 @@ impl Cx {
             nontrivial: false,
             classes: vec![0; nclasses],
             evals: 0,
+            max_ratio: 0.0,
             sampling: false,
             sample: None,
             tier_thorough: thorough,
@@ -132,6 +134,12 @@ impl Cx {
     pub fn evals(&mut self, n: u64) {
         self.evals += n;
     }
+    /// record |error| / tolerance of one comparison (the maximum is reported in the evidence)
+    pub fn ratio(&mut self, r: f64) {
+        if r > self.max_ratio {
+            self.max_ratio = r;
+        }
+    }
     pub fn sampling(&self) -> bool {
         self.sampling
     }
@@ -168,6 +176,7 @@ pub struct Stats {
     pub executions: u64,
     pub nontrivial: u64,
     pub evals: u64,
+    pub max_ratio: f64,
     pub classes: Vec<u64>,
     pub samples: Vec<Value>,
 }
@@ -326,6 +335,7 @@ pub fn run_phase(ph: &Phase, cfg: &Config) -> PhaseReport {
                         }
                     }
                     st.evals += cx.evals;
+                    st.max_ratio = st.max_ratio.max(cx.max_ratio);
                     for (i, c) in cx.classes.iter().enumerate() {
                         st.classes[i] += c;
                     }
@@ -339,6 +349,7 @@ pub fn run_phase(ph: &Phase, cfg: &Config) -> PhaseReport {
                 g.0.executions += st.executions;
                 g.0.nontrivial += st.nontrivial;
                 g.0.evals += st.evals;
+                g.0.max_ratio = g.0.max_ratio.max(st.max_ratio);
                 for (i, c) in st.classes.iter().enumerate() {
                     g.0.classes[i] += c;
                 }
@@ -481,6 +492,7 @@ pub fn run_check(chk: Check, thorough: bool, seed: u64, extra_violation: Option<
         tot.executions += r.stats.executions;
         tot.nontrivial += r.stats.nontrivial;
         tot.evals += r.stats.evals;
+        tot.max_ratio = tot.max_ratio.max(r.stats.max_ratio);
         for sv in &r.stats.samples {
             if tot.samples.len() < 8 {
                 tot.samples.push(json!({"phase": r.name, "execution": sv}));
@@ -555,6 +567,9 @@ pub fn run_check(chk: Check, thorough: bool, seed: u64, extra_violation: Option<
     cov.insert("evaluations".into(), json!(tot.executions));
     cov.insert("subject_evaluations".into(), json!(tot.evals));
     cov.insert("distinct_nontrivial".into(), json!(tot.nontrivial));
+    if tot.max_ratio > 0.0 {
+        cov.insert("max_error_over_tolerance".into(), json!(tot.max_ratio));
+    }
     cov.insert("rule".into(), json!(chk.rule));
     cov.insert("samples".into(), Value::Array(tot.samples.clone()));
     cov.insert("exhaustive".into(), json!(exhaustive));
